@@ -33,9 +33,18 @@ fn fail(msg: String) -> ! {
 
 /// evaluations over the LDE domain (no offset: the FRI crate's own tests use the plain domain) of a
 /// polynomial with `num_coeffs` seeded non-zero coefficients
-fn evaluations<B: StarkField>(num_coeffs: usize, domain_size: usize, rng: &mut Rng) -> Vec<B> {
-    let mut p: Vec<B> = (0..num_coeffs).map(|_| B::from((rng.next() >> 33) as u32 | 1)).collect();
-    p.resize(domain_size, B::ZERO);
+fn evaluations<B: StarkField, E: FieldElement<BaseField = B>>(num_coeffs: usize, domain_size: usize, rng: &mut Rng) -> Vec<E> {
+    // coefficients with a non-trivial extension part where the field has one
+    let mut p: Vec<E> = (0..num_coeffs)
+        .map(|_| {
+            let mut bytes = vec![0u8; E::ELEMENT_BYTES];
+            for chunk in bytes.chunks_mut(B::ELEMENT_BYTES) {
+                chunk[..4].copy_from_slice(&(((rng.next() >> 33) as u32) | 1).to_le_bytes());
+            }
+            E::read_from_bytes(&bytes).unwrap()
+        })
+        .collect();
+    p.resize(domain_size, E::ZERO);
     let twiddles = fft::get_twiddles::<B>(domain_size);
     fft::evaluate_poly(&mut p, &twiddles);
     p
@@ -43,21 +52,27 @@ fn evaluations<B: StarkField>(num_coeffs: usize, domain_size: usize, rng: &mut R
 
 type Outcome = Result<(), VerifierError>;
 
+thread_local! {
+    /// when set to Some(k): the verifier is handed the claimed evaluations with the k-th queried one changed
+    static CORRUPT_CLAIM: std::cell::Cell<Option<usize>> = const { std::cell::Cell::new(None) };
+}
+
 #[allow(clippy::too_many_arguments)]
-fn run<B, H>(
-    prover: &mut FriProver<B, B, DefaultProverChannel<B, H, DefaultRandomCoin<H>>, H>,
+fn run<B, E, H>(
+    prover: &mut FriProver<B, E, DefaultProverChannel<E, H, DefaultRandomCoin<H>>, H>,
     options: &FriOptions,
-    evals: &[B],
+    evals: &[E],
     max_degree: usize,
     num_queries: usize,
     tamper: Option<usize>,
 ) -> Outcome
 where
     B: StarkField,
+    E: FieldElement<BaseField = B>,
     H: crypto::ElementHasher<BaseField = B>,
 {
     let domain_size = evals.len();
-    let mut channel = DefaultProverChannel::<B, H, DefaultRandomCoin<H>>::new(domain_size, num_queries);
+    let mut channel = DefaultProverChannel::<E, H, DefaultRandomCoin<H>>::new(domain_size, num_queries);
     prover.build_layers(&mut channel, evals.to_vec());
     let positions = channel.draw_query_positions(0);
     let proof = prover.build_proof(&positions);
@@ -84,22 +99,30 @@ where
         }
         fail("FriProof::read_from left bytes of an honest proof unread".to_string());
     }
-    let mut vchannel = match DefaultVerifierChannel::<B, H>::new(proof, commitments, domain_size, options.folding_factor()) {
+    let mut vchannel = match DefaultVerifierChannel::<E, H>::new(proof, commitments, domain_size, options.folding_factor()) {
         Ok(c) => c,
         Err(_) => return Err(VerifierError::InvalidRemainderFolding),
     };
     let mut coin = DefaultRandomCoin::<H>::new(&[]);
     let verifier = FriVerifier::new(&mut vchannel, &mut coin, options.clone(), max_degree)?;
-    let queried: Vec<B> = positions.iter().map(|&p| evals[p]).collect();
+    let mut queried: Vec<E> = positions.iter().map(|&p| evals[p]).collect();
+    if let Some(k) = CORRUPT_CLAIM.with(|c| c.get()) {
+        let k = k % queried.len();
+        queried[k] += E::ONE;
+    }
     verifier.verify(&mut vchannel, &queried, &positions)
 }
 
-fn grid<B, H>(tag: &str, rng: &mut Rng, cases: &mut u64)
+fn grid<B, E, H>(tag: &str, full: bool, rng: &mut Rng, cases: &mut u64)
 where
     B: StarkField,
+    E: FieldElement<BaseField = B>,
     H: crypto::ElementHasher<BaseField = B>,
 {
     for log_n in 3..=7usize {
+        if !full && log_n % 2 == 0 {
+            continue;
+        }
         let n = 1usize << log_n;
         for blowup in [2usize, 4, 8] {
             for folding in [2usize, 4, 8, 16] {
@@ -112,15 +135,15 @@ where
                     if layers * folding.trailing_zeros() as usize > log_n {
                         continue;
                     }
-                    let mut prover: FriProver<B, B, DefaultProverChannel<B, H, DefaultRandomCoin<H>>, H> = FriProver::new(options.clone());
+                    let mut prover: FriProver<B, E, DefaultProverChannel<E, H, DefaultRandomCoin<H>>, H> = FriProver::new(options.clone());
                     // one prover instance is reused for every polynomial of this configuration (C15)
                     for (what, num_coeffs) in [("degree == bound", n), ("degree 0", 1), ("low degree", (n / 2).max(1))] {
                         for queries in [1usize, 7, 40] {
                             if queries >= domain {
                                 continue;
                             }
-                            let evals = evaluations::<B>(num_coeffs, domain, rng);
-                            let r = catch_unwind(AssertUnwindSafe(|| run::<B, H>(&mut prover, &options, &evals, n - 1, queries, None)));
+                            let evals = evaluations::<B, E>(num_coeffs, domain, rng);
+                            let r = catch_unwind(AssertUnwindSafe(|| run::<B, E, H>(&mut prover, &options, &evals, n - 1, queries, None)));
                             *cases += 1;
                             match r {
                                 Ok(Ok(())) => {},
@@ -133,11 +156,30 @@ where
                             }
                         }
                     }
+                    // the claimed evaluations handed to the verifier differ from the committed function at ONE
+                    // queried position (the other queried positions are consistent): must be refused
+                    for k in 0..3usize {
+                        let evals = evaluations::<B, E>(n, domain, rng);
+                        CORRUPT_CLAIM.with(|c| c.set(Some(k * 3)));
+                        let r = catch_unwind(AssertUnwindSafe(|| run::<B, E, H>(&mut prover, &options, &evals, n - 1, 7.min(domain - 1), None)));
+                        CORRUPT_CLAIM.with(|c| c.set(None));
+                        *cases += 1;
+                        match r {
+                            Ok(Ok(())) => fail(format!(
+                                "evaluations that differ from the committed layer at one queried position are accepted: field={tag} trace_len={n} blowup={blowup} folding={folding} remainder_max_degree={rmd} changed_query={}",
+                                k * 3
+                            )),
+                            Ok(Err(_)) => {},
+                            Err(_) => fail(format!(
+                                "verifier panicked on inconsistent claimed evaluations: field={tag} trace_len={n} blowup={blowup} folding={folding} remainder_max_degree={rmd}"
+                            )),
+                        }
+                    }
                     // a tampered proof byte must be refused (a handful of positions per configuration)
                     for k in 0..6u64 {
-                        let evals = evaluations::<B>(n, domain, rng);
+                        let evals = evaluations::<B, E>(n, domain, rng);
                         let t = (rng.next() % 100_000) as usize + k as usize;
-                        let r = catch_unwind(AssertUnwindSafe(|| run::<B, H>(&mut prover, &options, &evals, n - 1, 7.min(domain - 1), Some(t))));
+                        let r = catch_unwind(AssertUnwindSafe(|| run::<B, E, H>(&mut prover, &options, &evals, n - 1, 7.min(domain - 1), Some(t))));
                         *cases += 1;
                         match r {
                             Ok(Ok(())) => fail(format!(
@@ -176,9 +218,9 @@ where
                 if num_coeffs > domain {
                     continue;
                 }
-                let evals = evaluations::<B>(num_coeffs, domain, rng);
+                let evals = evaluations::<B, B>(num_coeffs, domain, rng);
                 let mut prover: FriProver<B, B, DefaultProverChannel<B, H, DefaultRandomCoin<H>>, H> = FriProver::new(options.clone());
-                let r = catch_unwind(AssertUnwindSafe(|| run::<B, H>(&mut prover, &options, &evals, bound, 24, None)));
+                let r = catch_unwind(AssertUnwindSafe(|| run::<B, B, H>(&mut prover, &options, &evals, bound, 24, None)));
                 *cases += 1;
                 match r {
                     Ok(Ok(())) => fail(format!(
@@ -205,7 +247,7 @@ where
     const N: usize = 4;
     for (domain, blowup, queries) in [(64usize, 4usize, 3usize), (256, 8, 9), (1024, 8, 20)] {
         let options = FriOptions::new(blowup, N, 3);
-        let evals = evaluations::<B>(domain / blowup, domain, rng);
+        let evals = evaluations::<B, B>(domain / blowup, domain, rng);
         let mut channel = DefaultProverChannel::<B, H, DefaultRandomCoin<H>>::new(domain, queries);
         let mut prover: FriProver<B, B, DefaultProverChannel<B, H, DefaultRandomCoin<H>>, H> = FriProver::new(options.clone());
         prover.build_layers(&mut channel, evals);
@@ -269,12 +311,37 @@ where
     }
 }
 
+/// layers whose opened values exceed 64 KiB (folding factor 16, 32-byte elements, up to 255 queries) survive
+/// serialization and verify; cubic-extension remainders (24-byte elements) parse
+fn large_layers(cases: &mut u64, rng: &mut Rng) {
+    use math::fields::{CubeExtension, QuadExtension};
+    type Q = QuadExtension<f128::BaseElement>;
+    type H = Blake3_256<f128::BaseElement>;
+    for queries in [127usize, 128, 200, 255] {
+        let (n, blowup) = (4096usize, 4usize);
+        let options = FriOptions::new(blowup, 16, 7);
+        let evals = evaluations::<f128::BaseElement, Q>(n, n * blowup, rng);
+        let mut prover: FriProver<f128::BaseElement, Q, DefaultProverChannel<Q, H, DefaultRandomCoin<H>>, H> = FriProver::new(options.clone());
+        *cases += 1;
+        match catch_unwind(AssertUnwindSafe(|| run::<f128::BaseElement, Q, H>(&mut prover, &options, &evals, n - 1, queries, None))) {
+            Ok(Ok(())) => {},
+            Ok(Err(e)) => fail(format!("honest FRI proof with large layers rejected ({e}): quadratic extension of f128, trace_len={n} folding=16 queries={queries}")),
+            Err(_) => fail(format!("FRI prover/verifier panicked on large layers: queries={queries}")),
+        }
+    }
+    let _ = core::marker::PhantomData::<CubeExtension<f64::BaseElement>>;
+}
+
 #[test]
 fn fri_end_to_end_bounded() {
     let mut rng = Rng(0xA0761D6478BD642F ^ seed().wrapping_mul(0xE7037ED1A0B428DB) | 1);
     let mut cases = 0u64;
-    grid::<f128::BaseElement, Blake3_256<f128::BaseElement>>("f128", &mut rng, &mut cases);
-    grid::<f64::BaseElement, Blake3_256<f64::BaseElement>>("f64", &mut rng, &mut cases);
+    grid::<f128::BaseElement, f128::BaseElement, Blake3_256<f128::BaseElement>>("f128", true, &mut rng, &mut cases);
+    grid::<f64::BaseElement, f64::BaseElement, Blake3_256<f64::BaseElement>>("f64", true, &mut rng, &mut cases);
+    grid::<f128::BaseElement, math::fields::QuadExtension<f128::BaseElement>, Blake3_256<f128::BaseElement>>("f128 quadratic", false, &mut rng, &mut cases);
+    grid::<f64::BaseElement, math::fields::QuadExtension<f64::BaseElement>, Blake3_256<f64::BaseElement>>("f64 quadratic", false, &mut rng, &mut cases);
+    grid::<f64::BaseElement, math::fields::CubeExtension<f64::BaseElement>, Blake3_256<f64::BaseElement>>("f64 cubic", false, &mut rng, &mut cases);
+    large_layers(&mut cases, &mut rng);
     above_bound::<f128::BaseElement, Blake3_256<f128::BaseElement>>("f128", &mut rng, &mut cases);
     layer_query_contract::<f128::BaseElement, Blake3_256<f128::BaseElement>>("f128", &mut rng, &mut cases);
     layer_query_contract::<f64::BaseElement, Blake3_256<f64::BaseElement>>("f64", &mut rng, &mut cases);
